@@ -170,7 +170,7 @@ func rulesC14(c *Ctx) {
 	}
 
 	// ------------------------------------------------------------- C14.b pairing
-	c.Rule("C14.b", "every Lock/RLock is released on every path (explicitly or by a deferred unlock); no Unlock of a lock that is not held; no RLock->Lock upgrade or re-lock of a held lock in one function; no call, while a lock is held, of a function that itself takes the same object's lock (non-reentrant RWMutex: self-deadlock)")
+	c.Rule("C14.b", "every Lock/RLock is released on every path (explicitly or by a deferred unlock); no Unlock of a lock that is not held; no RLock->Lock upgrade or re-lock of a held lock in one function; no call, while a lock is held, of a function that itself takes the same object's lock, read or write (non-reentrant RWMutex: a nested RLock deadlocks as soon as a writer queues between the two)")
 	nOps := 0
 	for _, fn := range p.funcs {
 		lf := la.funcs[fn]
